@@ -1,5 +1,5 @@
 // auto-generated: "lalrpop 0.23.1"
-// sha3: 104c22cb0654d9e1a9d023b153c1f6ae909b55dde1ccf26d0746fd9b4bc99928
+// sha3: 8f4829bc9e8ae1c6088d3489696c62ea29dc5d50ae13277c20d65b421c6d6008
 use crate::rt::*;
 #[allow(unused_extern_crates)]
 extern crate lalrpop_util as __lalrpop_util;
@@ -760,15 +760,13 @@ fn __action0<
 fn __action1<
 >(
     (_, l, _): (i64, i64, i64),
-    (_, pL0, _): (i64, i64, i64),
     (_, c0, _): (i64, Tok, i64),
     (_, c1, _): (i64, Tree, i64),
-    (_, pR2, _): (i64, i64, i64),
     (_, c2, _): (i64, Tok, i64),
     (_, r, _): (i64, i64, i64),
 ) -> Tree
 {
-    { probe("S#0", 0, 'L', pL0); probe("S#0", 2, 'R', pR2); node("S#0", l, r, vec![Tree::from(c0), Tree::from(c1), Tree::from(c2)]) }
+    node("S#0", l, r, vec![Tree::from(c0), Tree::from(c1), Tree::from(c2)])
 }
 
 #[allow(clippy::too_many_arguments, clippy::needless_lifetimes, clippy::just_underscores_and_digits, clippy::extra_unused_type_parameters)]
@@ -791,40 +789,36 @@ fn __action3<
     (_, c0, _): (i64, Tok, i64),
     (_, c1, _): (i64, Tree, i64),
     (_, c2, _): (i64, Tok, i64),
-    (_, pL3, _): (i64, i64, i64),
     (_, r, _): (i64, i64, i64),
 ) -> Tree
 {
-    { probe("S#2", 3, 'L', pL3); node("S#2", l, r, vec![Tree::from(c0), Tree::from(c1), Tree::from(c2)]) }
+    node("S#2", l, r, vec![Tree::from(c0), Tree::from(c1), Tree::from(c2)])
 }
 
 #[allow(clippy::too_many_arguments, clippy::needless_lifetimes, clippy::just_underscores_and_digits, clippy::extra_unused_type_parameters)]
 fn __action4<
 >(
     (_, l, _): (i64, i64, i64),
-    (_, pR0, _): (i64, i64, i64),
     (_, c0, _): (i64, Tok, i64),
     (_, c1, _): (i64, Tree, i64),
     (_, c2, _): (i64, Tok, i64),
     (_, r, _): (i64, i64, i64),
 ) -> Tree
 {
-    { probe("S#3", 0, 'R', pR0); node("S#3", l, r, vec![Tree::from(c0), Tree::from(c1), Tree::from(c2)]) }
+    node("S#3", l, r, vec![Tree::from(c0), Tree::from(c1), Tree::from(c2)])
 }
 
 #[allow(clippy::too_many_arguments, clippy::needless_lifetimes, clippy::just_underscores_and_digits, clippy::extra_unused_type_parameters)]
 fn __action5<
 >(
     (_, l, _): (i64, i64, i64),
-    (_, pR0, _): (i64, i64, i64),
     (_, c0, _): (i64, Tok, i64),
     (_, c1, _): (i64, Tree, i64),
     (_, c2, _): (i64, Tree, i64),
-    (_, pR3, _): (i64, i64, i64),
     (_, r, _): (i64, i64, i64),
 ) -> Tree
 {
-    { probe("X#0", 0, 'R', pR0); probe("X#0", 3, 'R', pR3); node("X#0", l, r, vec![Tree::from(c0), Tree::from(c1), Tree::from(c2)]) }
+    node("X#0", l, r, vec![Tree::from(c0), Tree::from(c1), Tree::from(c2)])
 }
 
 #[allow(clippy::too_many_arguments, clippy::needless_lifetimes, clippy::just_underscores_and_digits, clippy::extra_unused_type_parameters)]
@@ -998,33 +992,23 @@ fn __action17<
 >(
     __0: (i64, Tok, i64),
     __1: (i64, Tree, i64),
-    __2: (i64, i64, i64),
-    __3: (i64, Tok, i64),
-    __4: (i64, i64, i64),
+    __2: (i64, Tok, i64),
+    __3: (i64, i64, i64),
 ) -> Tree
 {
     let __start0 = __0.0.clone();
     let __end0 = __0.0.clone();
-    let __start1 = __0.0.clone();
-    let __end1 = __0.0.clone();
     let __temp0 = __action12(
         &__start0,
         &__end0,
     );
     let __temp0 = (__start0, __temp0, __end0);
-    let __temp1 = __action12(
-        &__start1,
-        &__end1,
-    );
-    let __temp1 = (__start1, __temp1, __end1);
     __action1(
         __temp0,
-        __temp1,
         __0,
         __1,
         __2,
         __3,
-        __4,
     )
 }
 
@@ -1066,24 +1050,16 @@ fn __action19<
 {
     let __start0 = __0.0.clone();
     let __end0 = __0.0.clone();
-    let __start1 = __2.2.clone();
-    let __end1 = __3.0.clone();
     let __temp0 = __action12(
         &__start0,
         &__end0,
     );
     let __temp0 = (__start0, __temp0, __end0);
-    let __temp1 = __action12(
-        &__start1,
-        &__end1,
-    );
-    let __temp1 = (__start1, __temp1, __end1);
     __action3(
         __temp0,
         __0,
         __1,
         __2,
-        __temp1,
         __3,
     )
 }
@@ -1092,11 +1068,10 @@ fn __action19<
     clippy::just_underscores_and_digits, clippy::clone_on_copy, clippy::unit_arg)]
 fn __action20<
 >(
-    __0: (i64, i64, i64),
-    __1: (i64, Tok, i64),
-    __2: (i64, Tree, i64),
-    __3: (i64, Tok, i64),
-    __4: (i64, i64, i64),
+    __0: (i64, Tok, i64),
+    __1: (i64, Tree, i64),
+    __2: (i64, Tok, i64),
+    __3: (i64, i64, i64),
 ) -> Tree
 {
     let __start0 = __0.0.clone();
@@ -1112,7 +1087,6 @@ fn __action20<
         __1,
         __2,
         __3,
-        __4,
     )
 }
 
@@ -1120,12 +1094,10 @@ fn __action20<
     clippy::just_underscores_and_digits, clippy::clone_on_copy, clippy::unit_arg)]
 fn __action21<
 >(
-    __0: (i64, i64, i64),
-    __1: (i64, Tok, i64),
+    __0: (i64, Tok, i64),
+    __1: (i64, Tree, i64),
     __2: (i64, Tree, i64),
-    __3: (i64, Tree, i64),
-    __4: (i64, i64, i64),
-    __5: (i64, i64, i64),
+    __3: (i64, i64, i64),
 ) -> Tree
 {
     let __start0 = __0.0.clone();
@@ -1141,8 +1113,6 @@ fn __action21<
         __1,
         __2,
         __3,
-        __4,
-        __5,
     )
 }
 
@@ -1263,26 +1233,18 @@ fn __action27<
     __2: (i64, Tok, i64),
 ) -> Tree
 {
-    let __start0 = __1.2.clone();
-    let __end0 = __2.0.clone();
-    let __start1 = __2.2.clone();
-    let __end1 = __2.2.clone();
+    let __start0 = __2.2.clone();
+    let __end0 = __2.2.clone();
     let __temp0 = __action11(
         &__start0,
         &__end0,
     );
     let __temp0 = (__start0, __temp0, __end0);
-    let __temp1 = __action11(
-        &__start1,
-        &__end1,
-    );
-    let __temp1 = (__start1, __temp1, __end1);
     __action17(
         __0,
         __1,
-        __temp0,
         __2,
-        __temp1,
+        __temp0,
     )
 }
 
@@ -1343,26 +1305,18 @@ fn __action30<
     __2: (i64, Tok, i64),
 ) -> Tree
 {
-    let __start0 = __0.0.clone();
-    let __end0 = __0.0.clone();
-    let __start1 = __2.2.clone();
-    let __end1 = __2.2.clone();
+    let __start0 = __2.2.clone();
+    let __end0 = __2.2.clone();
     let __temp0 = __action11(
         &__start0,
         &__end0,
     );
     let __temp0 = (__start0, __temp0, __end0);
-    let __temp1 = __action11(
-        &__start1,
-        &__end1,
-    );
-    let __temp1 = (__start1, __temp1, __end1);
     __action20(
-        __temp0,
         __0,
         __1,
         __2,
-        __temp1,
+        __temp0,
     )
 }
 
@@ -1375,34 +1329,18 @@ fn __action31<
     __2: (i64, Tree, i64),
 ) -> Tree
 {
-    let __start0 = __0.0.clone();
-    let __end0 = __0.0.clone();
-    let __start1 = __2.2.clone();
-    let __end1 = __2.2.clone();
-    let __start2 = __2.2.clone();
-    let __end2 = __2.2.clone();
+    let __start0 = __2.2.clone();
+    let __end0 = __2.2.clone();
     let __temp0 = __action11(
         &__start0,
         &__end0,
     );
     let __temp0 = (__start0, __temp0, __end0);
-    let __temp1 = __action11(
-        &__start1,
-        &__end1,
-    );
-    let __temp1 = (__start1, __temp1, __end1);
-    let __temp2 = __action11(
-        &__start2,
-        &__end2,
-    );
-    let __temp2 = (__start2, __temp2, __end2);
     __action21(
-        __temp0,
         __0,
         __1,
         __2,
-        __temp1,
-        __temp2,
+        __temp0,
     )
 }
 
